@@ -77,3 +77,7 @@ def run(ctx):
                        "non-trivial when the run writes at least two frames; distinct = distinct (input) tuples")
     ctx.assume("scripted physics: the update function is replaced, everything else (DataHandler, Runner, frame writer, "
                "Solution assembly/loader) is the real code; natural runs use the real update")
+
+
+def replay(ctx, path):
+    return rf.replay_file(ctx, path, rf.INV_C05, "C05")
